@@ -433,13 +433,6 @@ theorem force_sim {k : Nat} (hlow : ∀ j, j < k → FClaimE j) {m : Nat → Nat
 
 /-! ## A call of a Go builtin that calls back into the machine -/
 
-/-- a call whose callee symbol denotes the Go builtin `name` -/
-def FClaimH (k : Nat) (name : String) : Prop :=
-  ∀ (h : String) (args : List Expr), FaList args = true → ∀ (m : Nat → Nat) (s : St) (rs : Ref.St) (env : Nat)
-    (pre post : List Instr) (i : Nat), RelF m s rs env → Seg s pre [.callExpr (.sym h) args] post →
-    lexLookup s h = some (i, .builtin name) →
-    SimF [.callExpr (.sym h) args] m s rs env (refCall k (.builtin name) args env rs)
-
 /-- the Go builtin `name` on evaluated arguments, inside its frame -/
 def BClaim (n : Nat) (name : String) : Prop :=
   ∀ (m : Nat → Nat) (s : St) (rs : Ref.St) (env : Nat) (vs : List Val) (D : List (Option Val)), RelF m s rs env →
